@@ -4,7 +4,7 @@ from . import wl_roundtrip
 PROPERTY = "C13"
 LEVEL = "exploration"
 SCENARIOS = {"shapes": 1}
-TIERS = {"quick": {"runs": 3000, "chunk": 40}, "thorough": {"runs": 200000, "chunk": 200}}
+TIERS = {"quick": {"runs": 3000, "chunk": 40}, "thorough": {"runs": 50000000, "wall_s": 600, "chunk": 200, "recheck": 16}}
 RULE = ("one run = 1-8 concurrent clients issuing roundtrip calls whose argument shape is "
         "drawn: 0-3 format strings with values, optional trailing value-less format, data "
         "= None / bytes of length 0..12 / count 0..12; the payload seen on the simulated "
